@@ -120,6 +120,8 @@ func sxAlphabet(n int) []sxEvent {
 		}
 		a = append(a, sxEvent{string(sif.EventSigningPartialSignReceived), p, "B1", "zero"}, sxEvent{string(sif.EventSigningPartialSignReceived), p, "B1", "empty"})
 		a = append(a, sxEvent{string(sif.EventSigningPartialSignError), p, "", "valid"}, sxEvent{string(sif.EventSigningPartialSignError), p, "", "zero"})
+		// clocks of different machines differ: a report or an answer stamped a few seconds before the proposal it belongs to
+		a = append(a, sxEvent{string(sif.EventSigningPartialSignError), p, "", "early"}, sxEvent{string(sif.EventSigningPartialSignReceived), p, "B2", "early"})
 	}
 	a = append(a, sxEvent{string(sif.EventSigningRestart), 0, "", "valid"}, sxEvent{string(sif.EventSigningInit), 0, "", "valid"},
 		sxEvent{"event_dkg_master_key_confirm_received", 0, "", "valid"}, sxEvent{"event_that_does_not_exist", 0, "", "valid"})
@@ -183,7 +185,7 @@ func sxJudge(pre sxOracle, e sxEvent, res fxResult, collected bool, n, t int) (s
 	if post.State == "cancelled" {
 		post = sxOracle{State: "idle"}
 	}
-	wellFormed := e.Pid >= 0 && e.Pid < n && (e.Var == "valid" || e.Var == "late")
+	wellFormed := e.Pid >= 0 && e.Pid < n && (e.Var == "valid" || e.Var == "late" || e.Var == "early" || e.Var == "ahead")
 	bit := uint32(1) << uint(max(e.Pid, 0))
 	expectAccept, expectCollected := false, false
 	switch e.Name {
@@ -430,9 +432,10 @@ func c06RunWide(st *vstat.Stats, w c05Walk) *viol {
 		case "collecting":
 			for p := 0; p < w.N; p++ {
 				if (o.A|o.F)&(1<<uint(p)) == 0 {
-					useful = append(useful, sxEvent{string(sif.EventSigningPartialSignReceived), p, o.Batch, "valid"})
+					skew := []string{"valid", "valid", "early", "ahead"}[(c.Idx/7+p)%4]
+					useful = append(useful, sxEvent{string(sif.EventSigningPartialSignReceived), p, o.Batch, skew})
 					if p%5 == 0 {
-						useful = append(useful, sxEvent{string(sif.EventSigningPartialSignError), p, "", "valid"})
+						useful = append(useful, sxEvent{string(sif.EventSigningPartialSignError), p, "", skew})
 					}
 				}
 			}
